@@ -270,6 +270,11 @@ def build_case(case):
     g.exc_kind = None
     kinds, x, m, first = g.build(entry)
     head = list(HEAD_X)
+    if rng.random() < 0.4:
+        # a user decorator that raises while a function is being defined, handled by the script itself: the definitions
+        # that follow (entry point, bystanders) must be unaffected
+        head += ["def bad_deco(fn):", "    raise ValueError('deco boom')", "", "try:", "    @bad_deco", "    def never():", "        pass", "except ValueError:", "    G_RES = 0", ""]
+        g.sites_used.append("caught_decorator_fault_before")
     body = list(x)
     tail = []
     # entry function: runs the chain when asked to (so that later occurrences can be served without the fault)
